@@ -69,11 +69,20 @@ def run(ctx):
         # accept only on the arm of its own kind
         adt = ctx.facts.adt(A + "AddressKind")
         idx = [v["name"] for v in adt["variants"]].index(kind)
-        acc = [x for x in exit_sites(g) if x["kind"] == "accept"]
+        acc = [x["block"] for x in exit_sites(g) if x["kind"] == "accept"]
         okk = bool(acc)
-        for x in acc:
-            conds = [(s, lab) for s, lab, d in g.edge_conditions(x["block"]) if g.switch_discr_expr(s)[0] == "discr" and has_leaf(ctx.leaves(g.switch_discr_expr(s)), "call:" + A + "string_to_kind_and_id")]
-            okk = okk and any(lab == idx for s, lab in conds if not has_leaf(ctx.leaves(g.switch_discr_expr(s)), "call:*Try::branch") or True) and any(lab == idx for _, lab in conds)
+        # the switch on the parsed kind: the accepting exit is reachable from the arm of the type's own
+        # kind and from no other arm (an or-pattern `Own | Account` adds a second label)
+        # (the discriminant of the kind is read from a projection into the parsed pair; the `?` on the
+        # parse result itself is the discriminant of the Try::branch call, not of a projection)
+        ksw = [b for b in sorted(g.reachable_from([0])) if g.blocks[b]["t"]["k"] == "switch" and g.switch_discr_expr(b)[0] == "discr"
+               and g.switch_discr_expr(b)[1][0] in ("proj", "part") and has_leaf(ctx.leaves(g.switch_discr_expr(b)), "call:" + A + "string_to_kind_and_id")]
+        labs = set()
+        for b in ksw:
+            for d, lab in g.out_edges(b):
+                if any(a in g.reachable_from([d]) for a in acc):
+                    labs.add(lab)
+        okk = okk and bool(ksw) and labs == {idx}
         ctx.check(okk, "C47.typed.kind", g.path, "%s parses only strings whose prefix kind is %s" % (ty, kind), key="C47.typed.kind|" + ty)
     ctx.floor("C47.typed.instances", "typed FromStr instances", n, 3)
     s = ctx.anchor(A + "string_to_kind_and_id", main=False)
